@@ -22,6 +22,14 @@ def main():
 
     if a.what == "setup":
         vlib.ensure_lib("asan")
+        # regenerate every Gen/ file from /repo before building Lean (Gen/ is not committed)
+        for f in sorted((Path(__file__).resolve().parent / "props").glob("c[0-9][0-9].py")):
+            mod = importlib.import_module("props." + f.stem)
+            if hasattr(mod, "generate"):
+                try:
+                    mod.generate()
+                except Exception as e:   # the check itself will report it as a broken obligation
+                    vlib.log("[setup] %s.generate failed: %s" % (f.stem, e))
         ok, out = vlib.lake_build(["AsmjitVerif", "vdriver"])
         if not ok:
             print(out[-6000:])
